@@ -42,8 +42,10 @@ ASSUMPTIONS = [
     "definitions are acyclic (property text: names defined in terms of other names; the library raises RecursionError on a cycle)",
     "the dimensionless-intermediate limitation of C08 applies: every non-constant operand carries a unit whose expanded dimension is non-zero",
     "define_unit(name, text) stores the parsed map of text (parsing itself is C12); a definition and a unit are dicts (unique keys)",
-    "a tree is built after the define/clear history (definitions do not change while one tree is being built); "
-    "recalculate() under changed definitions is covered by the correspondence only",
+    "a tree is built under the definitions in force at that moment (definitions do not change while one tree is being built); "
+    "the model has no state besides UNIT_DEFINITIONS, so what was defined, used or redefined earlier cannot matter -- this is "
+    "tied on every run by the session correspondence and judged by the session oracle; recalculate() under changed "
+    "definitions is covered by the correspondence only",
     "exponents are exact rationals; float exponent arithmetic is exact on the dyadic cases generated",
 ]
 
@@ -218,6 +220,35 @@ def correspondence(ctx):
         def mk(enc, unit=unit, pre=pre, r=r):
             return "({}, {}, {})".format(enc.umap(unit), enc.umap(pre), enc.q(r.numerator, r.denominator))
         tp_entries.append((mk, {"kind": "try_pack", "case": {"unit": unit, "pre": pre}}))
+    # sessions: define / clear / use interleaved in one interpreter state; each use is compared with the model under
+    # d_run of the events so far (this is where "results depend only on the definitions in force" is tied)
+    sessions = list(ul.session_templates()) if not ctx.quick else rng.sample(ul.session_templates(), 16)
+    for _ in range(ctx.n(220, 3000)):
+        sessions.append(ul.gen_session(rng))
+    se_entries = []
+    for steps in sessions:
+        try:
+            obs = ul.run_session(steps)
+        except ul.CaseInvalid:
+            res.count("skipped:unit-string-not-parsed-as-intended")
+            continue
+        if not all(o["exact"] for o in obs):
+            res.count("skipped:inexact-float-exponent")
+            continue
+        showns = [ul.shown_items(o, False) for o in obs]
+        res.evaluations += len(obs)
+        res.traces += 1
+        n_def = sum(1 for st in steps if st[0] == "define")
+        names = [st[1] for st in steps if st[0] == "define"]
+        redef = len(names) != len(set(names))
+        res.count("session:{}".format("redefinition" if redef else "no-redefinition"))
+        res.count("session-uses", len(obs))
+        if redef and len(obs) >= 2:
+            res.nontrivial.add(core.canonical_key("s", steps))
+
+        def mk(enc, steps=steps, obs=obs, showns=showns):
+            return enc.session(steps, obs, showns)
+        se_entries.append((mk, {"kind": "session", "case": {"steps": steps}}))
     df_entries = []
     for _ in range(ctx.n(100, 1000)):
         h = ul.rand_history(rng, malformed=rng.random() < 0.3)
@@ -241,16 +272,23 @@ def correspondence(ctx):
                 "a factor missing); all depth-1 trees over a 23-unit pool for each standard set (exhaustive in thorough, sampled in "
                 "quick); observed: ordered items of ._unit, mismatch warning, .unit re-read, RecursionError. Plus recalculate() after "
                 "the definitions changed, direct operate_with_units and __try_pack calls, and UNIT_DEFINITIONS after a history. "
+                "Plus SESSIONS: define / clear / use steps interleaved in one interpreter state (chains N,J,W,Pa defined bottom-up "
+                "or top-down, dependents used, a lower name redefined or defined late WITHOUT a clear, dependents used again; "
+                "clear in the middle; random interleavings over an acyclic vocabulary), every use observed and compared with the "
+                "model under the definitions in force at that step. "
                 "non-trivial = a non-leaf tree under at least one definition whose result has a unit or a warning / an operate call "
-                "with non-empty result / a try_pack call that packs (distinct by content)")
+                "with non-empty result / a try_pack call that packs / a session with a redefinition and >= 2 uses (distinct by content)")
     res.samples = [e[1]["case"] for e in entries[:2]] + [e[1]["case"] for e in tp_entries[:1]] + [e[1]["case"] for e in rec_entries[:1]]
     dis, failures = ul.eval_shards(ID, [("check_tree", entries), ("check_recalc", rec_entries), ("check_operate", op_entries),
                                         ("check_try_pack", tp_entries), ("check_defs", df_entries)],
                                    keep=getattr(ctx, "keep_cases", False))
+    dis2, failures2 = ul.eval_shards(ID + "s", [("check_session", se_entries)], keep=getattr(ctx, "keep_cases", False), per=60)
+    dis, failures = dis + dis2, failures + failures2
     for f in failures:
         res.disagreements.append({"name": f, "case": None})
     names = {"check_tree": "unit_of", "check_recalc": "propagate_units (recalculate)", "check_operate": "operate_with_units",
-             "check_try_pack": "try_pack", "check_defs": "d_run (define_unit/clear_unit_definitions)"}
+             "check_try_pack": "try_pack", "check_defs": "d_run (define_unit/clear_unit_definitions)",
+             "check_session": "unit_of under d_run of the events so far (session)"}
     for fn, payload in dis:
         res.disagreements.append({"name": "Model.Units.{} vs implementation".format(names[fn]), "kind": payload["kind"],
                                   "case": payload["case"]})
@@ -259,6 +297,8 @@ def correspondence(ctx):
 
 # ---- oracle ----------------------------------------------------------------------------------------------
 def check_case(case):
+    if "steps" in case:
+        return ul.oracle_session(case["steps"])
     why = ul.oracle_check(case.get("history", []), case["tree"], case.get("frac", False))
     if why:
         return why
@@ -268,6 +308,10 @@ def check_case(case):
 
 
 def report(case, why):
+    if "steps" in case:
+        small = {"steps": ul.shrink_session(case["steps"])}
+        return Violation(ID, "session", small, check_case(small) or why)
+
     def fails(h, t):
         return check_case(dict(case, history=h, tree=t)) is not None
     h, t = ul.shrink_case(case.get("history", []), case["tree"], fails)
@@ -287,16 +331,24 @@ def search(ctx, suspects, budget):
         elif c and s.get("kind") == "operate" and len(c.get("args", [])) in (1, 2) and c["op"] in ul.UN_OPS + ul.BIN_OPS:
             t = [("un" if len(c["args"]) == 1 else "bin"), c["op"]] + [ul.leaf(a) for a in c["args"]]
             todo.append({"history": c.get("history", []), "tree": t, "frac": False})
-    todo += [c["case"] for c in ul.load_corpus(ID) if c.get("kind") == "tree"]
+        elif c and s.get("kind") == "session":
+            todo.append({"steps": c["steps"]})
+    todo += [c["case"] for c in ul.load_corpus(ID) if c.get("kind") in ("tree", "session")]
+    todo += [{"steps": st} for st in ul.session_templates()]
     scope = small_scope_cases()
     stride = max(1, len(scope) // ctx.n(1200, 6000))
     todo += [{"history": h, "tree": t, "frac": False, "clear": i % 7 == 0} for i, (h, t) in enumerate(scope[::stride])]
     n = 0
+    n_sessions = 0
     while len(out) < 3:
         if todo:
             case = todo.pop(0)
+            n_sessions += 1 if "steps" in case else 0
         elif time.time() - t0 > budget:
             break
+        elif rng.random() < 0.35:
+            case = {"steps": ul.gen_session(rng)}
+            n_sessions += 1
         else:
             h, t = gen_tree_case(rng)
             case = {"history": h, "tree": t, "frac": rng.random() < 0.08, "clear": rng.random() < 0.15}
@@ -308,7 +360,8 @@ def search(ctx, suspects, budget):
                 seen.add(v.key)
                 out.append(v)
     ul.reset_state()
-    ctx.notes.append("oracle: {} (history, tree) cases checked against an independent Fraction expansion".format(n))
+    ctx.notes.append("oracle: {} cases checked against an independent Fraction expansion, of which {} define/clear/use "
+                     "sessions (every use judged under the definitions in force at that step)".format(n, n_sessions))
     return out
 
 
